@@ -22,6 +22,11 @@ contract(f"{S}::gammafit",
         # the MLE equation log(a) - digamma(a) = log(mean) - mean(log) is fed with the positive values only
         "positives_only": "implies(n > 0, n == npos(x, N) and xts == spos(x, N) and logs == lpos(x, N))",
         "no_positive_value_fails": "implies(npos(x, N) == 0, result[0] == 0 and result[1] == 0)",
+        # the statistic of the MLE equation and the root bracket (Thom's closed-form estimate of the shape, +-40 %) -- clauses over
+        # locals, evaluated on the paths that compute them
+        "mle_statistic": "s == log(xts / n) - logs / n",
+        "thom_bracket": "a_est == (3 - s + sqrt((s - 3) * (s - 3) + 24 * s)) / (12 * s) and xa == a_est * (1 - 0.4) and xb == a_est * (1 + 0.4)",
+        "scale_is_mean_over_shape": "implies(a != 0, result[0] == a and result[1] == (xts / n) / a)",
     },
     loops={0: {"index": "t", "invariant": {"range": "0 <= t", "acc": "n == npos(x, t) and xts == spos(x, t) and logs == lpos(x, t) and n >= 0"}}},
     assumes={},
@@ -38,8 +43,14 @@ contract(f"{S}::gammastd",
         "no_valid_cell": "implies(cv(x, nodata, T) == 0, forall(i, 0, T, result[i] == nodata))",
         "too_many_zeros": "implies(cv(x, nodata, T) > 0 and real(cz(x, nodata, T)) / cv(x, nodata, T) > 0.9, forall(i, 0, T, result[i] == nodata))",
     },
+    entry_hints=[("let", "FIT", "0")],
+    anchors={"after: alpha, beta = gammafit(...": [("let", "FIT", "1")]},
     local_ensures={
         "zero_share": "implies(cv(x, nodata, T) > 0, p_zero == real(cz(x, nodata, T)) / cv(x, nodata, T))",
+        # without overrides (a = b = 0) the parameters come from the fit on the calibration window, and every valid cell of the result is
+        # the normal quantile of the zero-mixture gamma probability of its observation
+        "fitted_on_the_window": "implies(cv(x, nodata, T) > 0 and p_zero <= 0.9, FIT == 1)",
+        "formula": f"implies(alpha != 0 and beta != 0, forall(i, 0, T, implies(x[i] != nodata and x[i] >= 0, result[i] == {FORMULA})))",
     },
     loops={0: {"index": "kx", "invariant": {"range": "0 <= kx", "counts": "n_zero == cz(x, nodata, kx) and n_valid == cv(x, nodata, kx) and 0 <= n_zero and n_zero <= n_valid"}},
            1: {"var": "ix", "invariant": {
